@@ -24,8 +24,23 @@ def main():
             if not path.startswith(facts.REPO + '/') or not path.endswith('.cpp'):
                 return
             per_file[path][(int(line), int(col))] = name
+        srcs = {}
+        def has_pp(f):
+            # functions with #if arms: clang-rename only sees the active arm, renaming would break the other one
+            loc = f.d.get('loc') or ''
+            path, line, _ = loc.rsplit(':', 2)
+            end = (f.body or {}).get('end') or ''
+            try:
+                eline = int(end.split(':')[0])
+            except ValueError:
+                return True
+            if path not in srcs:
+                srcs[path] = open(path, errors='replace').read().split('\n')
+            return any(l.lstrip().startswith('#') for l in srcs[path][int(line) - 1:eline])
         for f in fs.defined():
             if not (f.d.get('loc') or '').startswith(facts.REPO + '/'):
+                continue
+            if f.body is None or has_pp(f):
                 continue
             for p in f.get('params') or ():
                 add(p.get('loc'), p.get('name'))
@@ -54,7 +69,7 @@ def main():
                 continue
             yml = os.path.join(base, 'r.yaml')
             open(yml, 'w').write('---\n' + ''.join(y) + '...\n')
-            r = subprocess.run(['clang-rename-14', '-i', '-force', '-input=' + yml, '-p', scratch, '--extra-arg=-std=gnu++17', '--extra-arg=-Wno-everything', wpath],
+            r = subprocess.run(['clang-rename-14', '-i', '-force', '-input=' + yml, '-p', scratch, '--extra-arg=-std=gnu++17', '--extra-arg=-UNDEBUG', '--extra-arg=-Wno-everything', wpath],
                                stdout=subprocess.PIPE, stderr=subprocess.STDOUT, text=True)
             total += len(y)
             if r.returncode != 0:
@@ -71,9 +86,11 @@ def main():
             print(p, 'exit', r.returncode, '|', tail[-1][:160])
             if r.returncode != 0:
                 bad += 1
+                show_next = 0
                 for l in tail[:-1]:
-                    if 'VIOLATION' in l or 'BROKEN' in l or ': C' in l:
+                    if 'VIOLATION' in l or 'BROKEN' in l or ': C' in l or show_next > 0:
                         print('    ', l[:260])
+                        show_next = 12 if 'does not parse' in l else show_next - 1
         return 1 if bad else 0
     finally:
         subprocess.run(['git', '-C', facts.REPO, 'worktree', 'remove', '--force', wt], stdout=subprocess.DEVNULL, stderr=subprocess.DEVNULL)
